@@ -41,6 +41,9 @@ impl Head {
 
     pub fn write(&mut self, data: &[u8]) -> Result<(), IoError> {
         fail_point!("write-head");
+        // handles cloned into the files cache share the offset with the head handle
+        // and `retrieve` seeks them, so position explicitly as `write_index` does
+        self.file.seek(SeekFrom::End(0))?;
         self.file.write_all(data)?;
         self.bytes += data.len() as u64;
         Ok(())
